@@ -1,5 +1,6 @@
 """C06 — from_repr(d) is Some(V) iff d is the discriminant rustc gives enabled variant V."""
 import itertools
+import os
 from vlib.defs import Item, Variant, Field, render_item, DISABLED
 from vlib import gen as G
 from vlib.run import Corpus
@@ -9,7 +10,7 @@ ID = "C06"
 # look-alikes of prelude names (vlib/defs.py HOSTILE) this check's derives are immune to on the unchanged tree
 HOSTILE_OK = ['Default', 'From', 'Into', 'Result', 'Option', 'Some', 'Ok', 'Iterator', 'Clone', 'AsRef', 'Send', 'PhantomData', 'IterGet', 'm_matches', 'm_assert', 'm_fmt', 'c_binders', 'no_implicit_prelude']
 PROP_FILE = "Props/C06.v"
-THEOREMS = ["C06_iff", "C06_none", "C06_roundtrip", "C06_const", "C06_total", "C06_nonvacuous"]
+THEOREMS = ["C06_iff", "C06_none", "C06_roundtrip", "C06_const", "C06_total", "C06_program", "C06_program_complete", "C06_nonvacuous"]
 RULE = ("definitions: repr type x explicit/implicit discriminant shapes (negative, gapped, descending, expression-valued) "
         "x every placement of disabled variants x variant kinds x generics; inputs: EVERY value of 8- and 16-bit "
         "discriminant types (sweep, compared as the table of Some entries), for wider types every discriminant and its "
@@ -85,6 +86,7 @@ def build_corpus(tier, rng):
         if all(v.kind == "unit" for v in it.variants) and it.tparams == 0:
             c.meta[k]["const"] = True
             c.add_q(k, "repr", ["const"], note="const")
+        c.add_q(k, "repr", ["prog"], note="structure")      # answered by the model only; the real side is read from the expansion (extra_checks)
 
     # regression: the defect repaired by 3e1f5e6 (disabled variant must still occupy a discriminant)
     add(Item("E", [mk_variant("X", "unit", False), mk_variant("Y", "unit", True), mk_variant("Z", "unit", False)], repr="u8"), "regression")
@@ -254,6 +256,59 @@ def compare(corpus, k, kind, args, note, iobs, mobs, cfg):
     return iobs == mobs, nt, None
 
 
+def query_in_config(cfg, kind, args):
+    return not (kind == "repr" and args and args[0] == "prog")
+
+
+STRUCT = {}
+
+
+def extra_checks(corpus, tier, model, impl):
+    """Structural tie: the body of `from_repr` in the REAL expansion of the corpus crate (rustc -Zunpretty=expanded), read by
+    harness/genprobe `structfr` into the shape of Model/ReprProg.v (constant chain: zero | prev | own; guarded arms: constant, variant,
+    payload count; wildcard), compared with the program the model emits (C06_program: running that program IS run_from_repr).
+    A structural difference alone is recorded, not reported."""
+    from vlib import run as R
+    from vlib.defs import plain_source
+    from vlib.strings import hx
+    st = {"what": extra_checks.__doc__.strip().replace("\n    ", " "), "definitions_checked": 0, "identical": 0, "not_readable": 0, "different": [],
+          "status": "ok"}
+    STRUCT.update(st)
+    shards = range(8) if tier == "thorough" else (0, 1)
+    mods, problems = R.real_expansion(ID.lower(), shards)
+    if problems:
+        STRUCT["status"] = "expansion unavailable: " + "; ".join(problems)[:400]
+    binp, err = R.build_genprobe()
+    if binp is None:
+        STRUCT["status"] = "token reader unavailable (harness/genprobe does not build)"
+        return [], 0, {}
+    progq = {k: n for (n, k, kind, args, note) in corpus.queries if kind == "repr" and args and args[0] == "prog"}
+    lines, asked = [], {}
+    for k, ml in sorted(mods.items()):
+        if k not in progq or k not in corpus.defs:
+            continue
+        imp = R.cut_impl(ml, "fn from_repr(")
+        if imp is None:
+            STRUCT["definitions_checked"] += 1
+            STRUCT["not_readable"] += 1
+            continue
+        asked[progq[k]] = k
+        lines.append("structfr %d %s %s" % (progq[k], hx(plain_source(corpus.defs[k])), hx(imp)))
+    obs, died = R.run_genprobe(binp, lines, os.path.join(R.WORK, ID, "structfr"))
+    for n, k in asked.items():
+        real, mobs = obs.get(n, "unparsed:no answer"), model.get(n, "")
+        STRUCT["definitions_checked"] += 1
+        if real.startswith("unparsed") or real.startswith("HARNESS"):
+            STRUCT["not_readable"] += 1
+            if len(STRUCT["different"]) < 5:
+                STRUCT["different"].append({"definition": render_item(corpus.defs[k], []), "real": real[:300], "model": mobs[:300]})
+        elif real == mobs:
+            STRUCT["identical"] += 1
+        elif len(STRUCT["different"]) < 5:
+            STRUCT["different"].append({"definition": render_item(corpus.defs[k], []), "real": real[:600], "model": mobs[:600]})
+    return [], STRUCT["definitions_checked"], {}
+
+
 def extra_coverage(corpus, tier):
     sweeps = sum(1 for q in corpus.queries if q[3] and q[3][0] == "sweep")
-    return {"exhaustive": True, "exhaustive_note": "%d definitions with 8/16-bit discriminant types were swept over every value of the type" % sweeps}
+    return {"structural_tie": dict(STRUCT), "exhaustive": True, "exhaustive_note": "%d definitions with 8/16-bit discriminant types were swept over every value of the type" % sweeps}
